@@ -302,6 +302,17 @@ pub struct LocalStats {
 }
 
 impl LocalStats {
+    /// counts measured by an external engine (the Hypothesis run of C18)
+    pub fn add_external(&mut self, evaluations: u64, distinct_nontrivial: u64, labels: serde_json::Map<String, Value>, samples: Vec<Value>) {
+        self.evaluations += evaluations;
+        // distinct hashes are counted by the engine itself; represent them by distinct numbers
+        self.nontrivial.extend((0..distinct_nontrivial).map(|i| mix(0xC18, i)));
+        for (k, v) in labels {
+            *self.labels.entry(intern(&k)).or_default() += v.as_u64().unwrap_or(0);
+        }
+        self.samples_nontrivial.extend(samples.into_iter().take(2));
+    }
+
     fn record_ok(&mut self, ok: &CaseOk, case_hash: u64, sample: impl FnOnce() -> Value) {
         self.evaluations += 1;
         for l in &ok.labels {
